@@ -863,6 +863,22 @@ func (g *gen) specCall(e *env, n *ast.CallExpr, want string, c *Clause) T {
 		fn := "box." + sortID(v.Sort)
 		g.declare(fn, fmt.Sprintf("(declare-fun %s (%s) Iface)\n(declare-fun un%s (Iface) %s)", fn, v.Sort, fn, v.Sort))
 		return T{S: sx(fn, v.S), Sort: sIface}
+	case "called":
+		// called(callee, k): the k-th call of callee (source order) in this body was executed on the path
+		// to the current point
+		if len(n.Args) != 2 {
+			return fail("called(callee, k)")
+		}
+		cv, ok := g.constExpr(n.Args[1])
+		if !ok {
+			return fail("called: constant ordinal expected")
+		}
+		kk, _ := constant.Int64Val(cv)
+		cr, ok := g.callReach[fmt.Sprintf("%s#%d", exprString(n.Args[0]), kk)]
+		if !ok {
+			return T{S: "false", Sort: sBool} // no such call in this body
+		}
+		return T{S: cr, Sort: sBool}
 	case "exhausted":
 		// exhausted(k): the current point was reached through the normal exit of loop k (its header's exit
 		// edge: every element visited), not through a break or return inside its body; false when unknown
